@@ -30,6 +30,103 @@ def run(repo: Repo, rep, tier: str):
     arity(repo, rep, "C20", mc)
     macro_guards(repo, rep, "C20", mc)
     unset_mapping(repo, rep, "C20", mc)
+    delivered_value(repo, rep, "C20", mc)
+    curve_interpolation(repo, rep, "C20")
+
+
+# ------------------------------------------------------------------------------------ R4 / R5
+def delivered_value(repo: Repo, rep, P: str, mc):
+    """The value written to a ranged target is converted + vt.min with the destination window [0, max − min]."""
+    from .. import alg
+    rel = mc.file.rel
+    fn = mc.methods["on_value_changed"]
+    con = f"{rel}:MultiCtl.on_value_changed"
+    defs = {}
+    for n in ast.walk(fn):
+        if isinstance(n, ast.Assign) and len(n.targets) == 1 and isinstance(n.targets[0], ast.Name):
+            defs[n.targets[0].id] = n.value
+    sets = [c for c in ast.walk(fn) if isinstance(c, ast.Call) and norm(c.func) == "setattr" and len(c.args) == 3]
+    if not sets:
+        rep.inconclusive(f"{P}.R4", con, "", "no setattr on the target", f"{rel}:{fn.lineno}")
+        return
+    val = sets[0].args[2]
+    while isinstance(val, ast.Name) and val.id in defs and val.id != "converted":
+        val = defs[val.id]
+
+    def leaf(e):
+        if isinstance(e, ast.Name) and e.id == "converted":
+            return alg.Poly.sym("c")
+        if norm(e) == "vt.min":
+            return alg.Poly.sym("min")
+        return None
+    try:
+        p = alg.to_poly(val, leaf)
+        good = p == alg.Poly.sym("c") + alg.Poly.sym("min")
+    except alg.NotAlgebraic:
+        good = False
+    if good:
+        rep.ok(f"{P}.R4", con, f"final value = {norm(val)}", "converted ∈ [0, max − min] is re-offset by the target's minimum for every range kind")
+    else:
+        rep.violation(f"{P}.R4", con, f"final value = {norm(val)}",
+                      "the value delivered to a ranged target must be converted + vt.min (converted is scaled into [0, max − min]); anything "
+                      "else lands outside the declared range for targets whose minimum is not 0 (e.g. positive minima, no-offset ranges)",
+                      f"{rel}:{sets[0].lineno}")
+    src = norm(fn)
+    if "dmin,dmax=0,vt.max-vt.min" in src.replace("(", "").replace(")", "").replace(" ", ""):
+        rep.ok(f"{P}.R4", con, "dmin, dmax = 0, vt.max - vt.min", "destination window is the target's span")
+    else:
+        rep.violation(f"{P}.R4", con, "dmin, dmax", "the destination window must be [0, vt.max − vt.min]", f"{rel}:{fn.lineno}")
+    flat = src.replace("(", "").replace(")", "").replace(" ", "")
+    if "ifsmin>smax:" in flat and "smin,smax=smax,smin" in flat and "dmin,dmax=dmax,dmin" in flat:
+        rep.ok(f"{P}.R4", con, "reversed window swaps source and destination bounds together", nontrivial=False)
+    else:
+        rep.violation(f"{P}.R4", con, "if smin > smax: swap", "a reversed mapping window must swap source and destination bounds together", f"{rel}:{fn.lineno}")
+
+
+def curve_interpolation(repo: Repo, rep, P: str):
+    """convert_value interpolates linearly between curve[bucket] and curve[bucket+1]: equals b at c = 0 and a at c = 1."""
+    from .. import alg
+    fn = repo.func("rv.modules.multictl", "convert_value")
+    rel = "src/python/rv/modules/multictl.py"
+    con = f"{rel}:convert_value"
+    expr = None
+    for n in ast.walk(fn):
+        if isinstance(n, ast.If) and "curve is not None" in norm(n.test):
+            for st in n.body:
+                if isinstance(st, ast.Assign) and norm(st.targets[0]) == "value":
+                    expr = st.value
+    if expr is None:
+        rep.inconclusive(f"{P}.R5", con, "", "curve interpolation not found", f"{rel}:{fn.lineno}")
+        return
+    inner = expr.args[0] if isinstance(expr, ast.Call) and norm(expr.func) == "int" and expr.args else expr
+
+    def leaf(e):
+        if isinstance(e, ast.Name) and e.id in ("a", "b", "c", "start", "offset", "bucket"):
+            return alg.Rat(alg.Poly.sym(e.id))
+        return None
+    try:
+        r = alg.to_rat(inner, leaf)
+        at0 = alg.Rat(r.n.subst("c", alg.Poly.const(0)), r.d.subst("c", alg.Poly.const(0)))
+        at1 = alg.Rat(r.n.subst("c", alg.Poly.const(1)), r.d.subst("c", alg.Poly.const(1)))
+        ok = at0.equals(alg.Rat(alg.Poly.sym("b"))) and at1.equals(alg.Rat(alg.Poly.sym("a")))
+        lin = r.n.degree_in("c") <= 1 and r.d.degree_in("c") == 0
+    except alg.NotAlgebraic as e:
+        rep.inconclusive(f"{P}.R5", con, norm(expr), f"not algebraic: {e}", f"{rel}:{expr.lineno}")
+        return
+    if ok and lin:
+        rep.ok(f"{P}.R5", con, f"value = {norm(expr)}", "linear in c, = curve[bucket] at c = 0 and curve[bucket+1] at c = 1 (continuous, monotone for a monotone curve)")
+    else:
+        rep.violation(f"{P}.R5", con, f"value = {norm(expr)}",
+                      f"the curve interpolation gives {at0} at c = 0 and {at1} at c = 1 instead of curve[bucket] (b) and curve[bucket+1] (a): "
+                      "the output jumps at every bucket boundary (not monotone, can leave the range) for any curve other than the identity",
+                      f"{rel}:{expr.lineno}")
+    src = norm(fn)
+    need = ["bucket = int(value / 128)", "b = curve[bucket]", "a = curve[bucket + 1] if bucket < 256 else b", "c = min(offset / 128, 1.0)"]
+    missing = [x for x in need if x not in src]
+    if not missing:
+        rep.ok(f"{P}.R5", con, "bucket = int(value / 128); b = curve[bucket]; a = curve[bucket + 1] (last bucket clamps); c = offset / 128", nontrivial=False)
+    else:
+        rep.info(f"{P}.R5", con, f"changed: {missing}", "bucket selection changed (not decided)")
 
 
 # ------------------------------------------------------------------------------------ R1
